@@ -142,6 +142,10 @@ def gen_cases(ctx):
     for p in env_params:
         for srcs in (["env"], ["env", "file"]):
             cases.append({"kind": "sources", "param": p, "sources": srcs})
+    # string-valued settings whose environment value happens to read like a boolean or a number: they stay strings
+    for p, v in (("include-interface-regex", "1"), ("include-interface-regex", "t"), ("structname", "T"), ("structname", "F"), ("pkgname", "t"), ("pkgname", "f"),
+                 ("dir", "0"), ("dir", "1"), ("structname", "t")):   # (not the keywords true/false themselves: the tool documents that it takes those for booleans)
+        cases.append({"kind": "sources", "param": p, "sources": ["env"], "env_value": v})
     for combo in (["flag"], ["env"], ["flag", "env"], ["flag", "file"], ["env", "file"], ["flag", "env", "file"]):
         cases.append({"kind": "configsrc", "sources": combo})
     for combo in (["flag"], ["env"], ["file"], ["flag", "env"], ["flag", "file"], ["env", "file"], ["flag", "env", "file"]):
@@ -411,7 +415,7 @@ def eval_sources(ctx, case):
         cfg[param] = FILE_VALUES[param]
     env = {}
     if "env" in srcs:
-        env["MOCKERY_" + param.upper().replace("-", "_")] = ENV_VALUES[param]
+        env["MOCKERY_" + param.upper().replace("-", "_")] = case.get("env_value", ENV_VALUES[param])
     files = dict(SRC)
     for pid in "ABC":
         files["probe%s.templ" % pid] = probe.probe_template(pid)
@@ -419,8 +423,8 @@ def eval_sources(ctx, case):
     root = core.scratch_module(ctx, files)
     model_cfg = dict(cfg)
     winner = "file" if "file" in srcs else "env"
-    val = FILE_VALUES[param] if winner == "file" else ENV_VALUES[param]
-    if isinstance(val, str) and val in ("true", "false"):
+    val = FILE_VALUES[param] if winner == "file" else case.get("env_value", ENV_VALUES[param])
+    if isinstance(val, str) and val in ("true", "false") and param in ("force-file-write", "all"):
         val = val == "true"
     model_cfg[param] = val
     eff = cfgmodel.resolve(cfgmodel.levels_for(model_cfg, MOD + "/pa", "I1" if "interfaces" in (cfg["packages"][MOD + "/pa"] or {}) else None))
